@@ -107,7 +107,7 @@ FObs == /\ IsEv("fobs") /\ fwd = "done"
                   want == SortDesc({Ev.cur, Ev.cur - 1} \cup pins) IN
               /\ Ev.haslist = 1 => Ev.list = want
               /\ Ev.min = want[Len(want)]
-              /\ Ev.pn <= Cardinality({e \div ecap : e \in ({Ev.cur, Ev.cur - 1} \cup pins)}) + 1
+              /\ Ev.pn <= Cardinality({e \div ecap : e \in ({Ev.cur, Ev.cur - 1} \cup pins)}) + 3   \* "plus a constant"
         /\ seen' = IF Ev.cur > seen THEN Ev.cur ELSE seen
         /\ fwd' = "idle"
         /\ Adv /\ UNCHANGED <<ecap, global, g, atstart, mustpin, quiet, conc, glist>>
